@@ -122,6 +122,15 @@ static std::string compareUpTo(const Schedule& a, const Schedule& b, size_t k, l
                     c.vfpprod.update(VFPProdTable(t.getTableNum(), t.getDatumDepth(), t.getFloType(), t.getWFRType(), t.getGFRType(), VFPProdTable::ALQ_TYPE::ALQ_UNDEF,
                                                   t.getFloAxis(), t.getTHPAxis(), t.getWFRAxis(), t.getGFRAxis(), std::vector<double>(t.getALQAxis().size(), 0.0), t.getTable()));
                 }
+                // the ALQ value of a producer (WCONPROD item 12) is converted with the unit of its table's ALQ type
+                for (const auto& wn : s.well_order()) {
+                    Well w = s.wells.get(wn);
+                    if (!w.isProducer()) continue;
+                    auto pp = std::make_shared<Well::WellProductionProperties>(w.getProductionProperties());
+                    pp->ALQValue = UDAValue(0.0);
+                    w.updateProduction(pp);
+                    c.wells.update(std::move(w));
+                }
                 return sdump::dump(c);
             };
             bool alqDiffers = false;
